@@ -181,3 +181,83 @@ func init() {
 		}
 	}
 }
+
+// kio.read: the loop of ByteReader.Read on classified documents — which become resources, the reader index each is
+// stamped with, when a List / ResourceList wrapper is replaced by its items — against Kust.KioRead.read.
+func init() {
+	components["kio.read"] = func(r *rand.Rand, tier string) (map[string]interface{}, func() (interface{}, string)) {
+		n := 1 + r.Intn(4)
+		if r.Intn(3) == 0 {
+			n = 1
+		}
+		var parts []string
+		var docs []interface{}
+		for i := 0; i < n; i++ {
+			switch r.Intn(7) {
+			case 0:
+				parts = append(parts, pick(r, []string{"# only a comment\n", "\n", "  \n# c\n"}))
+				docs = append(docs, map[string]interface{}{"t": "blank"})
+			case 1:
+				parts = append(parts, pick(r, []string{"null\n", "~\n", "# c\nnull\n"}))
+				docs = append(docs, map[string]interface{}{"t": "null"})
+			case 2, 3:
+				kind := pick(r, []string{"List", "ResourceList", "List", "ConfigMapList", "list"})
+				api := "v1"
+				if kind == "ResourceList" {
+					api = "config.kubernetes.io/v1"
+				}
+				txt := fmt.Sprintf("apiVersion: %s\nkind: %s\n", api, kind)
+				var items interface{}
+				switch r.Intn(4) {
+				case 0: // no items field
+				case 1:
+					txt += "items: []\n"
+					items = 0
+				default:
+					k := 1 + r.Intn(3)
+					txt += "items:\n"
+					for j := 0; j < k; j++ {
+						txt += fmt.Sprintf("- apiVersion: v1\n  kind: ConfigMap\n  metadata:\n    name: d%d-%d\n", i, j)
+					}
+					items = k
+				}
+				fc := r.Intn(5) == 0
+				if fc {
+					txt += "functionConfig:\n  a: b\n"
+				}
+				txt += fmt.Sprintf("metadata:\n  name: d%d\n", i)
+				parts = append(parts, txt)
+				docs = append(docs, map[string]interface{}{"t": "res", "kind": kind, "items": items, "fc": fc})
+			default:
+				kind := pick(r, []string{"ConfigMap", "Deployment", "Thing"})
+				parts = append(parts, fmt.Sprintf("apiVersion: v1\nkind: %s\nmetadata:\n  name: d%d\n", kind, i))
+				docs = append(docs, map[string]interface{}{"t": "res", "kind": kind, "items": nil, "fc": false})
+			}
+		}
+		stream := strings.Join(parts, "---\n")
+		disable := r.Intn(4) == 0
+		args := map[string]interface{}{"docs": docs, "disable": disable, "stream": stream}
+		return args, func() (interface{}, string) {
+			rd := &kio.ByteReader{Reader: bytes.NewReader([]byte(stream)), DisableUnwrapping: disable}
+			nodes, err := rd.Read()
+			if err != nil {
+				return map[string]interface{}{"err": "other:" + err.Error()}, "err"
+			}
+			out := []interface{}{}
+			for _, nd := range nodes {
+				name := nd.GetName()
+				var d, j int
+				if _, e := fmt.Sscanf(name, "d%d-%d", &d, &j); e == nil {
+					out = append(out, []interface{}{"item", d, j})
+					continue
+				}
+				fmt.Sscanf(name, "d%d", &d)
+				idx := -1
+				fmt.Sscanf(nd.GetAnnotations()["internal.config.kubernetes.io/index"], "%d", &idx)
+				out = append(out, []interface{}{"doc", d, idx})
+			}
+			cl := fmt.Sprintf("n=%d-out=%d", n, len(nodes))
+			return map[string]interface{}{"ok": out}, cl
+		}
+	}
+}
